@@ -81,21 +81,29 @@ example : PathOk [97, 91, 48, 93] :=
 
 /-- the scanner and the evaluator do not depend on where an expression sits in the content:
 scanning `e}` alone and scanning it `k` units into a longer content (after a unit that cannot end
-an operand, no `{` inside) give the same list with text operands moved by `k`, and the two lists
-evaluate to the same number. -/
+an operand) give the same list with text and `{var:…}` operands moved by `k`, and the two lists
+evaluate to the same number when the two environments give every scanned `{…}` operand and its
+moved copy the same value (`scanVar`: offset + 5, length, and the scanner's loop-variable answer
+at that offset; no condition when the expression has no `{`). -/
 theorem scan_eval_relocatable {R : Type} [RealLike R] (cfg cfg' : ScanCfg R)
     (hrn : cfg'.readNum = cfg.readNum) {c c' : List Nat} {k : Nat} (h : Reloc c c' k)
-    (hno : ∀ (i x : Nat), c[i]? = some x → x ≠ 123) (off endO : Nat) (he : endO < c.length)
+    (off endO : Nat) (he : endO < c.length)
     (items : List (Item R)) (hp : parseTop cfg c off endO = .ok items)
-    (env env' : Env R) (henv : RelEnv env env' k) (hcont : env.content = c) :
+    (env env' : Env R) (henv : RelEnv env env' k) (hcont : env.content = c)
+    (hlk : ∀ o e, c[o]? = some 123 → o + 5 < e → c[e]? = some 125 →
+      env'.lookup (scanVar cfg' (k + o) (k + e)) = env.lookup (scanVar cfg o e)) :
     ∃ items', parseTop cfg' c' (k + off) (k + endO) = .ok items' ∧
       evaluateTop env' true items' = evaluateTop env true items := by
-  obtain ⟨items', h1, h2⟩ := parseTop_reloc cfg cfg' hrn h hno off endO he items hp
-  exact ⟨items', h1, (evaluateTop_reloc henv true items items' (by rw [hcont]; exact h2)).1⟩
+  obtain ⟨items', h1, h2⟩ := parseTop_relocV cfg cfg' hrn h
+    (fun v v' => env'.lookup v' = env.lookup v) hlk off endO he items hp
+  exact ⟨items', h1, (evaluateTop_reloc henv (fun _ _ hv => hv) true items items' (by rw [hcont]; exact h2)).1⟩
 
 /-- stages 2+3 of `RenderParsePrint`: templates made of text, `{var:path}`, `{raw:path}` and
-`{math:expression}` in any number and order.  Texts, paths and expressions are free of `{ < }`
-(so the expressions are over literals: numbers, parentheses, all operators, text comparison);
+`{math:expression}` in any number and order.  Texts and paths are free of `{ < }`; an expression
+(`MathOk`) is any text whose only `{ < }` are those of `{var:path}` operands with such paths:
+numbers, parentheses, all operators, text comparison, variables (`pathOk` for a `{math:}`: the
+paths of the operands the scanner finds have the documented shape; their values are whatever the
+document holds);
 paths have the documented shape and 1..255 units and may or may not resolve in the value (an
 unresolved `{var:}` prints its own escaped source, an unresolved `{raw:}` / a `{math:}` without a
 value its source); the value, the number reader, the real-number formatter and the escape switch
@@ -104,7 +112,7 @@ theorem render_parse_print_segs {R : Type} [RealLike R] (cx : RCtx R) (sx : Spec
     (cfg : ScanCfg R) (segs : List Seg) (hg : cx.guardIndexRead = true) (same : SameCtx cx sx)
     (hrn : cfg.readNum = cx.readNum)
     (hc : cx.content = printList (segsTpl segs)) (hok : ∀ s ∈ segs, s.ok)
-    (hpath : ∀ s ∈ segs, s.pathOk)
+    (hpath : ∀ s ∈ segs, s.pathOk cfg.readNum)
     (hn : cx.content.length + 16 < 4294967296) (fuel fuel' : Nat) :
     (parse cfg cx.content).bind (fun tags => renderTop cx tags (nTags segs + 2 + fuel)) =
       .ok (expand sx (segsTpl segs) (segs.length + 1 + fuel')) := by
@@ -132,7 +140,7 @@ and escape switch: parse + render = the documented expansion. -/
 theorem render_parse_print_blocks {R : Type} [RealLike R] (cx : RCtx R) (sx : SpecCtx R)
     (cfg : ScanCfg R) (bs : List Blk) (hg : cx.guardIndexRead = true) (same : SameCtx cx sx)
     (hrn : cfg.readNum = cx.readNum)
-    (hc : cx.content = printList (blksTpl bs)) (hok : ∀ b ∈ bs, b.ok) (hpath : ∀ b ∈ bs, b.pathOk)
+    (hc : cx.content = printList (blksTpl bs)) (hok : ∀ b ∈ bs, b.ok) (hpath : ∀ b ∈ bs, b.pathOk cfg.readNum)
     (hcase : ∀ b ∈ bs, b.caseOk cfg.readNum)
     (hn : cx.content.length + 16 < 4294967296) (fuel fuel' : Nat) :
     (parse cfg cx.content).bind (fun tags => renderTop cx tags (rneed bs + rcost bs + fuel)) =
@@ -149,7 +157,8 @@ theorem render_parse_print_blocks {R : Type} [RealLike R] (cx : RCtx R) (sx : Sp
     expandList_blks cx bs _ (by omega)]
 
 /-- non-vacuity: `a<if case="1 > 0">{var:x}</if>` is such a template -/
-example : Blk.ok (.ifc [49, 32, 62, 32, 48] [.var [120]]) ∧ Blk.pathOk (.ifc [49, 32, 62, 32, 48] [.var [120]]) := by
+example {R : Type} (rn : List Nat → Option (Num R)) :
+    Blk.ok (.ifc [49, 32, 62, 32, 48] [.var [120]]) ∧ Blk.pathOk rn (.ifc [49, 32, 62, 32, 48] [.var [120]]) := by
   refine ⟨⟨?_, ?_, ?_⟩, ?_⟩
   · intro x hx; simp at hx; rcases hx with h | h | h | h | h <;> subst h <;> (unfold plainU; decide)
   · intro x hx; simp at hx; rcases hx with h | h | h | h | h <;> subst h <;> decide
@@ -160,7 +169,10 @@ example : Blk.ok (.ifc [49, 32, 62, 32, 48] [.var [120]]) ∧ Blk.pathOk (.ifc [
 
 /-- stage 5 of `RenderParsePrint`: block TREES.  `BTs` = sequences of segment runs (stage 3) and
 `<if case="e">…<elseif case="e2" />…<else />…</if>` chains of any length whose bodies are again
-block trees (any nesting depth).  Case texts free of `{ < } "`; `caseOk`: every case text of a
+block trees (any nesting depth).  Case texts are ANY text free of `"`: literals, operators,
+parentheses and `{var:path}` operands (`varsOk`: the paths of the operands the scanner finds have
+the documented shape; the values are whatever the document holds — numbers, strings, booleans,
+null, containers, nothing).  `caseOk`: every case text of a
 chain with more than one branch scans to a non-empty list (for a non-expression the code prints
 nothing / treats a later empty case as `else`, see the observations in notes/design-tmpl.md).
 For every value, number reader, formatter and escape switch: parse + render = the documented
@@ -170,7 +182,7 @@ expansion.  Proof: mutual structural recursion over the tree for the parser (`pa
 theorem render_parse_print_tree {R : Type} [RealLike R] (cx : RCtx R) (sx : SpecCtx R)
     (cfg : ScanCfg R) (bs : BTs) (hg : cx.guardIndexRead = true) (same : SameCtx cx sx)
     (hrn : cfg.readNum = cx.readNum)
-    (hc : cx.content = printList (btsTpl bs)) (hok : bs.ok) (hpath : bs.pathOk)
+    (hc : cx.content = printList (btsTpl bs)) (hok : bs.ok) (hpath : bs.pathOk cfg.readNum)
     (hcase : bs.caseOk cfg.readNum)
     (hn : cx.content.length + 16 < 4294967296) (fuel fuel' : Nat) :
     (parse cfg cx.content).bind (fun tags => renderTop cx tags (rneedBTs bs + rcostBTs bs + fuel)) =
@@ -185,6 +197,43 @@ theorem render_parse_print_tree {R : Type} [RealLike R] (cx : RCtx R) (sx : Spec
   rw [show rneedBTs bs + rcostBTs bs + fuel = (rneedBTs bs + fuel) + rcostBTs bs by omega,
     renderTop_tree cx cfg hg hrn bs hc hok hpath hcase _ (by omega), expand, same.eq,
     expand_bts cx bs _ (by omega)]
+
+/-- non-vacuity of the tree class with `{var:}` operands in a case text and in a `{math:}`:
+`<if case="{var:x} == 1">{math:{var:x}+1}<else />b</if>` (with a reader that knows `1`) -/
+def rdX {R : Type} : List Nat → Option (Num R) := fun s => if s = [49] then some (.nat 1) else none
+def caseX : List Nat := [123, 118, 97, 114, 58, 120, 125, 32, 61, 61, 32, 49]
+def mathX : List Nat := [123, 118, 97, 114, 58, 120, 125, 43, 49]
+def treeX : BTs := .cons (.ifc caseX (.cons (.segs [.math mathX]) .nil) (.els (.cons (.segs [.text [98]]) .nil))) .nil
+theorem scanX {R : Type} : parseTop ({ readNum := rdX } : ScanCfg R) (caseX ++ [34]) 0 caseX.length =
+    .ok [(.var ⟨5, 1, 0, 0⟩, .equal), (.num (.nat 1), .noOp)] := by
+  with_unfolding_all rfl
+theorem scanM {R : Type} : parseTop ({ readNum := rdX } : ScanCfg R) (mathX ++ [125]) 0 mathX.length =
+    .ok [(.var ⟨5, 1, 0, 0⟩, .add), (.num (.nat 1), .noOp)] := by
+  with_unfolding_all rfl
+theorem pathX : PathOk [120] :=
+  ⟨[120], [], by simp [brk], by simp, by intro x hx; simp at hx; subst hx; decide, by intro k hk; cases hk⟩
+example {R : Type} : treeX.ok ∧ treeX.pathOk (rdX (R := R)) ∧ treeX.caseOk (rdX (R := R)) := by
+  refine ⟨?_, ?_, ?_⟩
+  · simp only [treeX, BTs.ok, BT.ok, BTail.ok, and_true]
+    refine ⟨by decide, ?_, ?_⟩
+    · intro s hs; simp at hs; subst hs
+      exact ⟨[([], [120])], [43, 49], by simp [mathX, printMP],
+        by intro x hx; simp at hx; rcases hx with h | h <;> subst h <;> (unfold plainU; decide),
+        by intro tp htp; simp at htp; subst htp; exact ⟨(by intro x hx; cases hx), (by intro x hx; simp at hx; subst hx; unfold plainU; decide)⟩⟩
+    · intro s hs; simp at hs; subst hs; intro x hx; simp at hx; subst hx; unfold plainU; decide
+  · simp only [treeX, BTs.pathOk, BT.pathOk, BTail.pathOk, and_true]
+    refine ⟨?_, ?_⟩
+    · intro s hs; simp at hs; subst hs
+      intro items h; rw [scanM] at h; cases h
+      intro v hv; simp [itemsVars, operandVars] at hv; subst hv
+      exact pathX
+    · intro s hs; simp at hs; subst hs; trivial
+  · simp only [treeX, BTs.caseOk, BT.caseOk, BTail.caseOk, and_true]
+    refine ⟨Or.inr ?_, ?_⟩
+    · intro items h; rw [scanX] at h; cases h; simp
+    · intro items h; rw [scanX] at h; cases h
+      intro v hv; simp [itemsVars, operandVars] at hv; subst hv
+      exact pathX
 
 /-- side conditions under which the document determines the output (the generator of
 `checks/c02.py` produces exactly such templates) — informal list kept next to the statement:
